@@ -63,6 +63,9 @@ StepApi(ln) ==
         Chk(ln.op # "a" \/ ln.ret = 0, "MM", 0, ln.ret),
         \* C07: garbage fed to ANOTHER connection of the process must not make a healthy connection fail or lose messages
         Chk(~(scen = "garbage2" /\ data /\ ln.ret = -1 /\ ln.err # EAGAIN), "C07.collateral", EAGAIN, ln.err),
+        \* C06: ... nor may the healthy connection report a terminal condition that is not its own (the protocol error
+        \* belongs to the other connection of this thread; OpenSSL's error queue is per thread)
+        Chk(~(scen = "garbage2" /\ data /\ ln.ret = -1 /\ ln.err # EAGAIN), "C06.spurious", EAGAIN, ln.err),
         \* C07: a connection attempt answered with garbage never becomes established
         Chk(~(ln.op = "vf" /\ ln.ret = 0), "C07.accepted_garbage", EPROTO, 0),
         \* C06: a failure of the connection sticks: no later send / receive succeeds, and on the TCP-based transports
